@@ -1,2 +1,75 @@
-(** C18.  Only statements, [exact], and Print Assumptions. *)
-From Sheens Require Import Model.Step.
+(** C18 - Permanent bindings cannot be removed or altered by actions or
+    guards.  Only statements, [exact], and Print Assumptions.
+
+    [func_exec] is the model of core.FuncAction.Exec, the wrapper through
+    which the engine runs EVERY action and guard ([run] = what the wrapped
+    function returns, arbitrary).  [is_permanent k] = the name ends in the
+    generated constant [perm_sigil] ("!"); the switch
+    [exp_permanent_bindings] is the generated default of
+    core.Exp_PermanentBindings: the proofs compute with both, so changing
+    either in the source breaks them on the next run. *)
+From Sheens Require Import Model.Step Model.Action Proofs.StepFacts Proofs.EngineFacts.
+
+Section C18.
+Variable action : Type.
+Variable run : action -> option bindings -> exec_raw.
+
+(** after any action or guard that completes and returns bindings, every
+    permanent binding present beforehand is present with its previous value
+    - whatever the code deleted, overwrote or returned instead (also when
+    the wrapped function reports an error together with bindings) *)
+Theorem C18_restored :
+  forall a bs out em err k v,
+  func_exec action run a bs = ((Some out, em), err) ->
+  nodup_keys (map fst (copy_bs bs)) = true ->
+  is_permanent k = true -> lookup k (copy_bs bs) = Some v ->
+  lookup k out = Some v.
+Proof. exact (func_exec_restores action run). Qed.
+
+(** a failing action leaves them in place: the bindings that carry the
+    error (handed to the error branches or to the designated node) extend
+    the state's bindings *)
+Theorem C18_failing_action_keeps :
+  forall s st pending n a r,
+  sp_compiled s = true -> find_node (st_node st) (sp_nodes s) = Some n ->
+  nd_action n = Some a -> is_consumer action (nd_branching n) = false ->
+  func_exec action run a (st_bs st) = (r, true) ->
+  let ebs := bset "error" err_text (bset "actionError" err_text (copy_bs (st_bs st))) in
+  lookup "error" ebs = Some err_text /\ lookup "actionError" ebs = Some err_text /\
+  (forall k v, k <> "error" -> k <> "actionError" ->
+               lookup k (copy_bs (st_bs st)) = Some v -> lookup k ebs = Some v) /\
+  match sp_err_branches s, String.eqb (sp_err_node s) "" with
+  | false, true => step action run s st pending = mk_step_out None (Some EAction) false
+  | false, false =>
+      step action run s st pending =
+      mk_step_out (Some (mk_stride (copy_state st) (Some (mk_state (sp_err_node s) (Some ebs))) None (snd r)))
+                  None false
+  | true, _ => step action run s st pending = continue_ action run n st pending true (Some ebs) (snd r)
+  end.
+Proof. exact (action_error_routed action run). Qed.
+
+(** a rejecting guard changes nothing: the branch is simply not taken *)
+Theorem C18_rejecting_guard_no_effect :
+  forall g cs, Forall (fun c => exists em, func_exec action run g c = ((None, em), false)) cs ->
+  guard_loop action run g cs = Some None.
+Proof.
+  intros g cs H. induction H as [|c r [em Hc] _ IH]; cbn; [reflexivity|]. rewrite Hc. exact IH.
+Qed.
+End C18.
+
+Print Assumptions C18_restored.
+Print Assumptions C18_failing_action_keeps.
+Print Assumptions C18_rejecting_guard_no_effect.
+
+(** the names of the error bindings are not permanent, so the clause above
+    covers every permanent binding *)
+Example C18_error_keys_not_permanent :
+  is_permanent "error" = false /\ is_permanent "actionError" = false /\ is_permanent "cfg!" = true.
+Proof. vm_compute. auto. Qed.
+
+(** non-vacuity: a script that deletes everything and returns a fresh object *)
+Example C18_nonvacuous :
+  func_exec act run_act (Js (mk_prog [ADelAll] (TRetFresh [("cfg!", JNum 8); ("x", JNum 4)])))
+            (Some [("a", JNum 4); ("cfg!", JStr "keep"); ("ver!", JNum 12)])
+  = ((Some [("cfg!", JStr "keep"); ("ver!", JNum 12); ("x", JNum 4)], []), false).
+Proof. vm_compute. reflexivity. Qed.
